@@ -3,6 +3,7 @@ package profile
 import (
 	"errors"
 	"fmt"
+	"github.com/aml-org/amf-custom-validator/internal/misc"
 	"github.com/aml-org/amf-custom-validator/internal/parser/path"
 	y "github.com/aml-org/amf-custom-validator/internal/parser/yaml"
 )
@@ -30,7 +31,7 @@ func (r NumericRule) String() string {
 		return fmt.Sprintf("%s%s(%s,'%s',%d)", negation, r.Name, r.Variable.Name, r.Path.Source(), i)
 	}
 	f, _ := r.Argument.Float()
-	return fmt.Sprintf("%s%s(%s,'%s',%f)", negation, r.Name, r.Variable.Name, r.Path.Source(), f)
+	return fmt.Sprintf("%s%s(%s,'%s',%s)", negation, r.Name, r.Variable.Name, r.Path.Source(), misc.RegoFloat(f))
 }
 
 func (r NumericRule) IntArgument() (int, error) {
@@ -47,7 +48,7 @@ func (r NumericRule) StringArgument() string {
 		return fmt.Sprintf("%d", i)
 	}
 	f, _ := r.Argument.Float()
-	return fmt.Sprintf("%f", f)
+	return misc.RegoFloat(f)
 }
 
 func newNumericComparison(negated bool, name string, operation CardinalityOperation, variable Variable, path path.PropertyPath, argument *y.Yaml) (NumericRule, error) {
